@@ -152,6 +152,41 @@ pub fn handle2(cmd: &str, args: &[Sexp]) -> Option<Result<String, String>> {
                 let leaked = parse_interp.get_variable("leak").is_some();
                 Ok(format!("{} || {} || probe={} leaked={}", a, b, probe_ok, leaked))
             }
+            // (exec-threads T K "program"): ONE parsed Code executed K times by each of T threads and twice
+            // sequentially before; prints every distinct result (the runs share nothing: all must be equal)
+            "exec-threads" => {
+                let (A(t), A(k), S(p)) = (&args[0], &args[1], &args[2]) else { return Err("exec-threads args".into()) };
+                let (t, k): (usize, usize) = (t.parse().map_err(|_| "T")?, k.parse().map_err(|_| "K")?);
+                let interp = Interpreter::with_stdlib();
+                let code = match Code::parse(&interp, p) {
+                    Ok(c) => std::sync::Arc::new(c),
+                    Err(e) => return Ok(format!("reject {}", variant_name(&e))),
+                };
+                let first = show(code.exec(), false);
+                let second = show(code.exec(), false);
+                let mut seen: std::collections::BTreeSet<String> = std::collections::BTreeSet::new();
+                seen.insert(second.clone());
+                let handles: Vec<_> = (0..t).map(|_| {
+                    let code = code.clone();
+                    std::thread::spawn(move || {
+                        let mut mine = std::collections::BTreeSet::new();
+                        for _ in 0..k {
+                            mine.insert(match std::panic::catch_unwind(std::panic::AssertUnwindSafe(|| show(code.exec(), false))) {
+                                Ok(s) => s,
+                                Err(_) => "(!panic)".to_string(),
+                            });
+                        }
+                        mine
+                    })
+                }).collect();
+                for h in handles {
+                    match h.join() {
+                        Ok(m) => seen.extend(m),
+                        Err(_) => { seen.insert("(!panic)".into()); }
+                    }
+                }
+                Ok(format!("first {} || others {}", first, seen.into_iter().collect::<Vec<_>>().join(" | ")))
+            }
             // (threads T K "program yielding (f, cell..)"): call f from T threads K times each
             "threads" => {
                 let (A(t), A(k), S(p)) = (&args[0], &args[1], &args[2]) else { return Err("threads args".into()) };
